@@ -615,7 +615,7 @@ struct Tree {
         Node &N = nd[n];
         N.pend = 0;
         cnt(N.cur.block ? "leaf_finish_after_block_and_resume" : "leaf_finish_without_block");
-        N.dummy->emitFinish(N.cur.outcome == O_SUCC, Action::Reason(std::string(kMsgs[N.cur.msg])));
+        N.dummy->emitFinish(N.cur.outcome == O_SUCC, Action::Reason(0, std::string(kMsgs[N.cur.msg])));
     }
     void do_block(int n) {
         Node &N = nd[n];
@@ -814,10 +814,6 @@ struct Tree {
             N.active_ms = 0; N.t_arm = (int64_t)g_now_ms; N.cont_running = true;
             N.stopped_by_running_parent = 0;
             cnt(kRunCounter[s.kind]);
-            if (is_leaf(s.kind)) {
-                N.cur_inv = N.inv++;
-                if (epoch_open) { leaf_order.push_back(std::make_pair(n, N.cur_inv)); ++leaf_count[n]; }
-            }
             if (p >= 0) {
                 Node &P = nd[p];
                 if (P.ms == M_PAUSE)
@@ -845,6 +841,10 @@ struct Tree {
                 std::fill(leaf_count.begin(), leaf_count.end(), 0);
                 fin_pending = false; fin_lost_by = 0;
                 root_done_ticks = -1;
+            }
+            if (is_leaf(s.kind)) {
+                N.cur_inv = N.inv++;
+                if (epoch_open) { leaf_order.push_back(std::make_pair(n, N.cur_inv)); ++leaf_count[n]; }
             }
             if (!is_leaf(s.kind)) model_begin(n);
             break;
